@@ -462,6 +462,7 @@ type s2Outcome struct {
 	ID        string `json:"id"`
 	Committed bool   `json:"committed"` // Commit returned to the enqueuer
 	Panic     string `json:"panic,omitempty"`
+	Refused   string `json:"refused,omitempty"` // Start or Body of the queue returned this error
 }
 
 func s2Case(t *testing.T, c *rep.Case, r *rep.Reporter, ys yieldStats, p *prng.R, sc s2Scenario, plan planSpec) {
@@ -583,9 +584,21 @@ func s2Case(t *testing.T, c *rep.Case, r *rep.Reporter, ys yieldStats, p *prng.R
 					if m.NullSender {
 						from = ""
 					}
+					// A queue that refuses the enqueue (Start or Body returns an error,
+					// e.g. because it is shutting down) took no responsibility for the
+					// message: it counts as not committed. The closer's triggers count
+					// the refused enqueue like a Commit call that returned.
+					refused := func(err error) {
+						omu.Lock()
+						o.Refused = err.Error()
+						omu.Unlock()
+						mon.event("commitcall")
+						mon.event("commitret")
+					}
 					d, err := q.Start(ctx, &module.MsgMetadata{ID: m.ID, OriginalFrom: from}, from)
 					if err != nil {
-						panic("harness: queue.Start: " + err.Error())
+						refused(err)
+						return
 					}
 					for _, rc := range m.Rcpts {
 						d.AddRcpt(ctx, rc, smtp.RcptOptions{})
@@ -593,7 +606,9 @@ func s2Case(t *testing.T, c *rep.Case, r *rep.Reporter, ys yieldStats, p *prng.R
 					hdr := textproto.Header{}
 					hdr.Add("Subject", "c12 "+m.ID)
 					if err := d.Body(ctx, hdr, buffer.MemoryBuffer{Slice: []byte("body of " + m.ID + "\r\n")}); err != nil {
-						panic("harness: queue Body: " + err.Error())
+						d.Abort(ctx)
+						refused(err)
+						return
 					}
 					mon.event("commitcall")
 					cerr := d.Commit(ctx)
@@ -901,6 +916,22 @@ func s2Case(t *testing.T, c *rep.Case, r *rep.Reporter, ys yieldStats, p *prng.R
 		}
 	}
 
+	// ---- a permanent failure is the outcome of a message only through its report ----
+	if closed && enqOK && inFlight == 0 && (sc.Bounce == bounceSelf || sc.Bounce == bounceSecond) {
+		judged, viaReport, unlinked, lost := judgeReported(sc, outs, view, tap.snapshot(), primary)
+		r.Count("s2_failed_rcpts_judged_for_report", int64(judged))
+		r.Count("s2_failed_rcpts_report_accepted_by_queue", int64(viaReport))
+		r.Count("s2_reports_unlinked", int64(unlinked))
+		for _, l := range lost {
+			if primary.Files[l.Msg+".meta_broken"] {
+				continue
+			}
+			c.Violation("S2/removed-without-terminal-outcome/"+l.Cause, fmt.Sprintf("message %s was committed to the queue, recipient %s failed permanently in an attempt, %s, and after shutdown the message is not in the spool with that recipient either: the only outcome of the message is lost, a restart has nothing to pick up", l.Msg, l.Rcpt, l.What),
+				wit(map[string]any{"spool": keys(primary.Files), "outcomes": outs, "still_to_try_in_meta": l.MetaTo}))
+			break
+		}
+	}
+
 	// ---- each dispatch = one attempt; a retry is not early ----
 	for _, vw := range []map[string]*msgView{view, view2} {
 		for id, v := range vw {
@@ -965,6 +996,11 @@ func s2Case(t *testing.T, c *rep.Case, r *rep.Reporter, ys yieldStats, p *prng.R
 	// ---- evidence ----
 	r.Count("s2_runs", 1)
 	r.Count("s2_messages_committed", int64(countCommitted(outs)))
+	for _, o := range outs {
+		if o.Refused != "" {
+			r.Count("s2_enqueues_refused_by_queue", 1)
+		}
+	}
 	r.Count("s2_target_events", int64(lg.Len()))
 	att, temps := 0, 0
 	for _, v := range view {
@@ -1023,7 +1059,9 @@ func s2Case(t *testing.T, c *rep.Case, r *rep.Reporter, ys yieldStats, p *prng.R
 				if rec.Committed && inQueue {
 					r.Count("s2_reports_enqueued_while_closing", 1)
 				}
-				if rec.Committed && sc.Bounce == bounceSelf {
+				// counted when the enqueue got as far as the queue's Commit, whatever
+				// Commit answered: the class was exercised also on a tree that refuses it
+				if (rec.Committed || rec.CommitErr != "") && sc.Bounce == bounceSelf {
 					r.Count("s2_reports_enqueued_into_same_queue_while_closing", 1)
 				}
 			}
